@@ -76,12 +76,12 @@ def _subtree_as_matrix(node: OpTreeNode, opmap: Mapping) -> np.ndarray:
     """
     Contract the (sub-)tree to obtain its matrix representation.
     """
+    if node.is_leaf():
+        # a leaf represents the empty product
+        return np.identity(1)
     op_sum = np.zeros((1, 1))
     for edge in node.children:
-        if edge.node.is_leaf():
-            op_subtree = np.identity(1)
-        else:
-            op_subtree = _subtree_as_matrix(edge.node, opmap)
+        op_subtree = _subtree_as_matrix(edge.node, opmap)
         op = np.kron(edge.coeff * opmap[edge.oid], op_subtree)
         # subtrees can have different heights
         if op_sum.shape[0] < op.shape[0]:
